@@ -182,9 +182,11 @@ def harness(env, case):
             Z = np.asarray(dm.group[name])
         except symx.PathEnd:
             raise
-        except Exception as e:
-            env.fail("the block of a group-specific term cannot be read by the term's name", {"term": name, "exc": type(e).__name__, "site": core.repo_site(e)})
-            continue
+        except Exception:  # noqa -- access by name is C17's subject; the block itself is read through the slices
+            try:
+                Z = np.asarray(dm.group.design_matrix)[:, dm.group.slices[name]]
+            except Exception as e:
+                raise symx.Inconclusive(f"the block of {name} cannot be read: {type(e).__name__}")
         fvars = []
         for comp in term.factor.components:
             m = re.match(r"^[CTS]\((\w+)", comp.name)
